@@ -419,7 +419,7 @@ def _prev_woken(S, e):
     return prev['proj'][3] if prev else []
 
 
-def run(ctx):
+def _run_vertical(ctx):
     rng = ctx.rng
     total = ctx.n(1000, 15000)
     per_base = ctx.n(40, 100)
@@ -535,3 +535,11 @@ def _paths(ops, prefix=()):
         yield prefix + (j,)
         if op[0] in ('L', 'u', 't'):
             yield from _paths(op[1], prefix + (j,))
+
+
+
+def run(ctx):
+    _run_vertical(ctx)
+    # second, independent tie: lock programs on the whole-program machine (whole-trace correspondence) + bracket/grant monitor
+    from harness import machine_prop
+    machine_prop.run(ctx, [('locks', 120, 3000, {})], ['C09'])
